@@ -21,6 +21,9 @@ Definition ex_history : list call :=
   [AddTopic 0%N 1; AddIssuer 0%N 3%N [1]; AllowKey 3%N ex_pk 0%N 101 1; AddIdentity 1%N 10%N 2%N 1;
    SetCti 0%N; SetIrs 1%N; AddClaim 2%N ex_claim; Verify 10%N].
 Definition ex_world : world := run (cfg_of ex_hdr) (init_of ex_hdr) ex_history.
+(* the model's trace of a history, every observation asking the header's revocation queries *)
+Definition mt (ks : list call) : list item := model_trace ex_hdr (init_of ex_hdr) (map (fun k => (k, h_revq ex_hdr)) ks).
+Definition last_obs (ks : list call) : obs := observe ex_hdr (run (cfg_of ex_hdr) (init_of ex_hdr) ks).
 
 (* a reachable state in which an account is verified by a genuine claim of a trusted issuer *)
 Example ex_verified : verify_identity (cfg_of ex_hdr) ex_world 10%N = Ok tt.
@@ -36,7 +39,7 @@ Example ex_not_verified_after :
 Proof. vm_compute. split; reflexivity. Qed.
 
 (* the run of the model on this history is accepted by the checker *)
-Example ex_check_ok : check (observe_model ex_hdr ex_history) = (0%N, 0%N, 0%N).
+Example ex_check_ok : check (ex_hdr, mt ex_history) = (0%N, 0%N, 0%N).
 Proof. vm_compute. reflexivity. Qed.
 
 (* ---- bad traces ---- *)
@@ -54,20 +57,20 @@ Fixpoint tamper_last (f : obs -> obs) (l : list item) : list item :=
    all - and the account reported as verified *)
 Definition f4_trace : trace :=
   (ex_hdr, tamper_last (fun o => set_verify o [true])
-             (model_trace ex_hdr (init_of ex_hdr) [AddTopic 0%N 1; AddIdentity 1%N 10%N 2%N 1; SetCti 0%N; SetIrs 1%N])).
+             (mt [AddTopic 0%N 1; AddIdentity 1%N 10%N 2%N 1; SetCti 0%N; SetIrs 1%N])).
 Example monitor_rejects_f4 : check f4_trace = (4%N, 4%N, 0%N).
 Proof. vm_compute. reflexivity. Qed.
 
 (* (b) the claim of a de-listed issuer still counted *)
 Definition delisted_trace : trace :=
   (ex_hdr, tamper_last (fun o => set_verify o [true])
-             (model_trace ex_hdr (init_of ex_hdr) (ex_history ++ [RemoveIssuer 0%N 3%N]))).
+             (mt (ex_history ++ [RemoveIssuer 0%N 3%N]))).
 Example monitor_rejects_delisted : check delisted_trace = (9%N, 9%N, 0%N).
 Proof. vm_compute. reflexivity. Qed.
 
 (* (c) a valid claim of a trusted issuer not honoured *)
 Definition refused_trace : trace :=
-  (ex_hdr, tamper_last (fun o => set_verify o [false]) (model_trace ex_hdr (init_of ex_hdr) ex_history)).
+  (ex_hdr, tamper_last (fun o => set_verify o [false]) (mt ex_history)).
 Example monitor_rejects_refusal : check refused_trace = (8%N, 8%N, 0%N).
 Proof. vm_compute. reflexivity. Qed.
 
@@ -81,7 +84,7 @@ Definition confirm_cell (o : obs) : obs :=
                                                     | None => None end)) (do_claims dob) |}) (o_idents o);
      o_issuers := o_issuers o; o_ver := o_ver o |}.
 Definition still_confirmed (k : call) : trace :=
-  (ex_hdr, tamper_last confirm_cell (model_trace ex_hdr (init_of ex_hdr) (ex_history ++ [k]))).
+  (ex_hdr, tamper_last confirm_cell (mt (ex_history ++ [k]))).
 Example monitor_rejects_stale_confirmation :
   map (fun k => snd (fst (check (still_confirmed k))))
       [Advance 50; SetRevoked 3%N 2%N 1 ex_data true; Invalidate 3%N 2%N 1; RemoveKey 3%N ex_pk 0%N 101 1]
@@ -90,7 +93,7 @@ Proof. vm_compute. reflexivity. Qed.
 
 (* (e) a nonce that does not move when signatures are invalidated *)
 Definition stuck_nonce_trace : trace :=
-  (ex_hdr, model_trace ex_hdr (init_of ex_hdr) ex_history ++
+  (ex_hdr, mt ex_history ++
            [(Invalidate 3%N 2%N 1, Ok VUnit, observe ex_hdr ex_world)]).
 Example monitor_rejects_stuck_nonce : snd (fst (check stuck_nonce_trace)) = 9%N.
 Proof. vm_compute. reflexivity. Qed.
@@ -100,7 +103,7 @@ Definition set_issuers (o : obs) (l : list issuer_obs) : obs :=
   {| o_now := o_now o; o_ctis := o_ctis o; o_irss := o_irss o; o_idents := o_idents o; o_issuers := l; o_ver := o_ver o |}.
 Definition stale_key_trace : trace :=
   (ex_hdr, tamper_last (fun o => set_issuers o (o_issuers (observe ex_hdr ex_world)))
-             (model_trace ex_hdr (init_of ex_hdr) (ex_history ++ [RemoveKey 3%N ex_pk 0%N 101 1]))).
+             (mt (ex_history ++ [RemoveKey 3%N ex_pk 0%N 101 1]))).
 Example monitor_rejects_stale_key : snd (fst (check stale_key_trace)) = 9%N.
 Proof. vm_compute. reflexivity. Qed.
 
@@ -108,9 +111,100 @@ Proof. vm_compute. reflexivity. Qed.
    revoked claim is confirmed again *)
 Definition lapsed_revocation_trace : trace :=
   (ex_hdr, tamper_last (fun _ => observe ex_hdr ex_world)
-             (model_trace ex_hdr (init_of ex_hdr) (ex_history ++ [SetRevoked 3%N 2%N 1 ex_data true; Ledger 600000 0]))).
+             (mt (ex_history ++ [SetRevoked 3%N 2%N 1 ex_data true; Ledger 600000 0]))).
 Example monitor_rejects_lapsed_revocation : snd (fst (check lapsed_revocation_trace)) = 10%N.
 Proof. vm_compute. reflexivity. Qed.
+
+
+(* ---- traces of the adversarial review (all have a non-zero diff too; the point is the monitor) ---- *)
+Definition map_cells (f : cdetail -> cdetail) (o : obs) : obs :=
+  {| o_now := o_now o; o_ctis := o_ctis o; o_irss := o_irss o;
+     o_idents := map (fun dob => {| do_ids := do_ids dob;
+                    do_claims := map (map (fun c => match c with Some cd => Some (f cd) | None => None end)) (do_claims dob) |}) (o_idents o);
+     o_issuers := o_issuers o; o_ver := o_ver o |}.
+Fixpoint set_out (out : outcome) (l : list item) : list item :=
+  match l with
+  | [] => []
+  | [(k, _, o)] => [(k, out, o)]
+  | x :: r => x :: set_out out r
+  end.
+Definition mon_of (t : trace) : N := snd (fst (check t)).
+Definition bad_sig : bytes := ex_pk ++ B 64 10.
+Definition confirmed_cell (cd : cdetail) : cdetail :=
+  {| cd_claim := cd_claim cd; cd_confirmed := true; cd_info := Some (Some true, false, 0) |}.
+Definition hist_nokey : list call :=
+  [AddTopic 0%N 1; AddIssuer 0%N 3%N [1]; AddIdentity 1%N 10%N 2%N 1; SetCti 0%N; SetIrs 1%N; ForceClaim 2%N (3%N, 1) 1 ex_claim].
+Definition hdr_norevq : hdr := set_revq ex_hdr [].
+
+(* answers of direct calls: a tampered / expired / keyless claim confirmed, a claim validated for
+   another topic, Verify succeeding after de-listing or for an account outside the universe *)
+Example monitor_rejects_call_answers :
+  map mon_of
+    [(ex_hdr, set_out (Ok VUnit) (mt (ex_history ++ [IsClaimValid 3%N 2%N 1 101 bad_sig ex_data])));
+     (ex_hdr, set_out (Ok VUnit) (mt (ex_history ++ [Advance 60; IsClaimValid 3%N 2%N 1 101 (ex_pk ++ ex_sig) ex_data])));
+     (ex_hdr, set_out (Ok VUnit) (mt (ex_history ++ [IsClaimValid 4%N 2%N 1 101 (ex_pk ++ ex_sig) ex_data])));
+     (ex_hdr, set_out (Ok (VBool true)) (mt (ex_history ++ [ValidateClaim ex_claim 2 3%N 2%N])));
+     (ex_hdr, set_out (Ok VUnit) (mt (ex_history ++ [RemoveIssuer 0%N 3%N; Verify 10%N])));
+     (ex_hdr, set_out (Ok VUnit) (mt (ex_history ++ [Verify 11%N])));
+     (ex_hdr, set_out Fail (mt ex_history))]                                      (* and a valid account refused by the call *)
+  = [9%N; 10%N; 9%N; 9%N; 10%N; 9%N; 8%N].
+Proof. vm_compute. reflexivity. Qed.
+
+(* "key currently allowed" is the history of allow_key / remove_key, not the issuer's own getter *)
+Example monitor_rejects_getter_says_allowed :
+  map mon_of
+    [(ex_hdr, tamper_last (fun o => set_verify (map_cells confirmed_cell o) [true]) (mt (ex_history ++ [RemoveKey 3%N ex_pk 0%N 101 1])));
+     (ex_hdr, tamper_last (fun o => set_verify (map_cells confirmed_cell o) [true]) (mt hist_nokey))]
+  = [9%N; 6%N].
+Proof. vm_compute. reflexivity. Qed.
+
+(* history: a nonce reset by a read-only call, a revocation lost by a failing call, successful
+   removals / additions without effect, a revocation whose flag is not among the observed queries *)
+Example monitor_rejects_history :
+  map mon_of
+    [(ex_hdr, mt (ex_history ++ [Invalidate 3%N 2%N 1]) ++ [(AuthorizedFor 3%N 0%N 1, Ok (VBool true), last_obs ex_history)]);
+     (ex_hdr, mt (ex_history ++ [SetRevoked 3%N 2%N 1 ex_data true]) ++ [(AddTopic 0%N 1, Fail, last_obs ex_history)]);
+     (ex_hdr, mt ex_history ++ [(RemoveIssuer 0%N 3%N, Ok VUnit, last_obs ex_history)]);
+     (ex_hdr, mt ex_history ++ [(AddTopic 0%N 2, Ok VUnit, last_obs ex_history)]);
+     (ex_hdr, mt ex_history ++ [(RemoveClaim 2%N (3%N, 1), Ok VUnit, last_obs ex_history)]);
+     (ex_hdr, mt ex_history ++ [(RemoveIdentity 1%N 10%N, Ok VUnit, last_obs ex_history)]);
+     (hdr_norevq, model_trace hdr_norevq (init_of hdr_norevq) (map (fun k => (k, [])) ex_history) ++
+        [(SetRevoked 3%N 2%N 1 ex_data true, Ok VUnit, observe hdr_norevq (run (cfg_of hdr_norevq) (init_of hdr_norevq) ex_history))])]
+  = [10%N; 10%N; 9%N; 9%N; 9%N; 9%N; 9%N].
+Proof. vm_compute. reflexivity. Qed.
+
+(* shape: a truncated list, an empty trace, a header without accounts *)
+Example monitor_rejects_malformed :
+  map mon_of
+    [(ex_hdr, tamper_last (fun o => set_verify o []) (mt (ex_history ++ [RemoveIssuer 0%N 3%N])));
+     (ex_hdr, []);
+     (HDR ex_net 50 ex_xdr [] 15 50 50 20 15 [0%N] [1%N] [2%N] [3%N] [] [3%N] [1] [] [], mt ex_history)]
+  = [9%N; 1%N; 1%N].
+Proof. vm_compute. reflexivity. Qed.
+
+(* a claim id that dangles under a topic that is NOT required does not excuse a refusal *)
+Definition dangling_unrequired : list call :=
+  ex_history ++ [ForceClaim 2%N (4%N, 2) 2 (CL 1 101 4%N [] [] 0); RemoveClaim 2%N (4%N, 2)].
+Example monitor_rejects_refusal_with_unrelated_dangling_id :
+  is_ok (verify_identity (cfg_of ex_hdr) (run (cfg_of ex_hdr) (init_of ex_hdr) dangling_unrequired) 10%N) = true /\
+  get_claim_ids_by_topic (get_or ident0 2%N (w_idents (run (cfg_of ex_hdr) (init_of ex_hdr) dangling_unrequired))) 2 = [(4%N, 2)] /\
+  check (ex_hdr, mt dangling_unrequired) = (0%N, 0%N, 0%N) /\
+  mon_of (ex_hdr, tamper_last (fun o => set_verify o [false]) (mt dangling_unrequired)) = 10%N.
+Proof. vm_compute. repeat split; reflexivity. Qed.
+
+(* where the code is stricter than the text: the identity lists, under the REQUIRED topic, the claim
+   id of a trusted issuer (4) but serves no claim for it; the code traps at get_claim and refuses,
+   although issuer 3's valid claim would cover the topic.  The monitor accepts the refusal (and would
+   accept success): the text does not decide for such an inconsistent identity contract. *)
+Definition dangling_required : list call :=
+  [AddTopic 0%N 1; AddIssuer 0%N 4%N [1]; AddIssuer 0%N 3%N [1]; AllowKey 3%N ex_pk 0%N 101 1; AddIdentity 1%N 10%N 2%N 1;
+   SetCti 0%N; SetIrs 1%N; AddClaim 2%N ex_claim; Verify 10%N;
+   ForceClaim 2%N (4%N, 1) 1 (CL 2 101 4%N [] [] 0); RemoveClaim 2%N (4%N, 1); Verify 10%N].
+Example code_refuses_on_dangling_required_id :
+  map (fun it : item => snd (fst it)) (mt dangling_required) =
+    [Ok VUnit; Ok VUnit; Ok VUnit; Ok VUnit; Ok VUnit; Ok VUnit; Ok VUnit; Ok (VCid (3%N, 1)); Ok VUnit; Ok VUnit; Ok VUnit; Fail] /\
+  check (ex_hdr, mt dangling_required) = (0%N, 0%N, 0%N).
+Proof. vm_compute. split; reflexivity. Qed.
 
 (* the oracle hypothesis of the nonce theorem is satisfiable: a table oracle binds messages as
    soon as its signatures are pairwise different *)
